@@ -351,6 +351,20 @@ def run_scenario(e, scenario, variant, seed, ctx_rng_seed):
             guarded(observer_method(ob), lambda ob=ob: _menu.call_observer(est, ob, X, y), (X, y, w))
         for label, thunk in weighted_observer_calls(est, e.observers, X, y, w):
             guarded(label, thunk, (X, y, w))
+        # the menu's data carries no weights for this entry: fit once more WITH weights when `fit` takes them (a
+        # weighted fit is a fit: same promises - returns self, leaves hyper-parameters and the caller's arrays alone)
+        if w is None and y is not None and X is not None:
+            import inspect
+            try:
+                takes = "sample_weight" in inspect.signature(est.fit).parameters
+            except (TypeError, ValueError):
+                takes = False
+            if takes:
+                w2 = 1.0 + 0.25 * (numpy.arange(len(y)) % 5)
+                r2, err2 = guarded("fit[sample_weight]", lambda: est.fit(X, y, sample_weight=w2), (X, y, w2))
+                if err2 is None and r2 is not est:
+                    bad.append(("%s.fit:does-not-return-self" % e.cls, "fit with sample_weight does not return the estimator "
+                                "itself", repr(r2)[:80], "self"))
         return bad, True
     # failing fit first
     if kind == "bad-data":
